@@ -433,3 +433,138 @@ pub proof fn lemma_ms_split_pieces(s: Seq<char>, c: char)
         if ms_is_piece(s, c, p) { lemma_ms_split_complete(s, c, p); }
     }
 }
+
+// ---- the selection statement ----
+
+/// decisions that follow a predicate keep exactly `filter(pred)`
+pub proof fn lemma_ms_keep_filter<T>(s: Seq<T>, keep: Seq<bool>, pred: spec_fn(T) -> bool)
+    requires
+        keep.len() == s.len(),
+        forall |i: int| 0 <= i < s.len() ==> #[trigger] keep[i] == pred(s[i]),
+    ensures
+        ms_keep(s, keep) == s.filter(pred),
+    decreases s.len(),
+{
+    reveal(Seq::filter);
+    if s.len() > 0 {
+        lemma_ms_keep_filter(s.drop_last(), keep.drop_last(), pred);
+        assert(keep.last() == pred(s.last()));
+    }
+}
+
+/// a `retain` whose decisions follow `pred` leaves `filter(pred)`
+pub proof fn lemma_ms_retained<T>(old: Seq<T>, new: Seq<T>, pred: spec_fn(T) -> bool)
+    requires
+        exists |keep: Seq<bool>| #![trigger ms_keep(old, keep)] keep.len() == old.len()
+            && (forall |i: int| #![trigger keep[i]] 0 <= i < keep.len() ==> keep[i] == pred(old[i]))
+            && new == ms_keep(old, keep),
+    ensures
+        new == old.filter(pred),
+{
+    let keep = choose |keep: Seq<bool>| #![trigger ms_keep(old, keep)] keep.len() == old.len()
+            && (forall |i: int| #![trigger keep[i]] 0 <= i < keep.len() ==> keep[i] == pred(old[i]))
+            && new == ms_keep(old, keep);
+    lemma_ms_keep_filter(old, keep, pred);
+}
+
+/// position `k` of `f` holds an element of `s` (as a reference to the same module value)
+pub open spec fn ms_elem_of(s: Seq<&CweModule>, m: &CweModule) -> bool {
+    exists |i: int| 0 <= i < s.len() && #[trigger] s[i] == m
+}
+
+/// `filter` on a module list: only elements of the list that satisfy the predicate, all of them, and no name twice if the
+/// list had no name twice
+pub proof fn lemma_ms_filter_modules(s: Seq<&CweModule>, pred: spec_fn(&CweModule) -> bool)
+    ensures
+        forall |k: int| 0 <= k < s.filter(pred).len() ==> pred(#[trigger] s.filter(pred)[k]) && ms_elem_of(s, s.filter(pred)[k]),
+        forall |i: int| 0 <= i < s.len() && pred(#[trigger] s[i]) ==> ms_elem_of(s.filter(pred), s[i]),
+        ms_names_distinct(s) ==> ms_names_distinct(s.filter(pred)),
+    decreases s.len(),
+{
+    reveal(Seq::filter);
+    let f = s.filter(pred);
+    if s.len() > 0 {
+        let s0 = s.drop_last();
+        let f0 = s0.filter(pred);
+        lemma_ms_filter_modules(s0, pred);
+        assert forall |k: int| 0 <= k < f.len() implies pred(#[trigger] f[k]) && ms_elem_of(s, f[k]) by {
+            if k < f0.len() {
+                assert(f[k] == f0[k]);
+                assert(ms_elem_of(s0, f0[k]));
+                let i = choose |i: int| 0 <= i < s0.len() && #[trigger] s0[i] == f0[k];
+                assert(s[i] == f[k]);
+            } else {
+                assert(f[k] == s[s.len() - 1]);
+            }
+        }
+        assert forall |i: int| 0 <= i < s.len() && pred(#[trigger] s[i]) implies ms_elem_of(f, s[i]) by {
+            if i < s0.len() {
+                assert(s0[i] == s[i]);
+                assert(ms_elem_of(f0, s0[i]));
+                let k = choose |k: int| 0 <= k < f0.len() && #[trigger] f0[k] == s0[i];
+                assert(f[k] == s[i]);
+            } else {
+                assert(f[f.len() - 1] == s[i]);
+            }
+        }
+        if ms_names_distinct(s) {
+            assert(ms_names_distinct(s0)) by {
+                assert forall |i: int, j: int| 0 <= i < j < s0.len() implies (#[trigger] s0[i]).name@ != (#[trigger] s0[j]).name@ by {
+                    assert(s0[i] == s[i] && s0[j] == s[j]);
+                }
+            }
+            assert forall |a: int, b: int| 0 <= a < b < f.len() implies (#[trigger] f[a]).name@ != (#[trigger] f[b]).name@ by {
+                if b < f0.len() {
+                    assert(f[a] == f0[a] && f[b] == f0[b]);
+                } else {
+                    assert(f[a] == f0[a]);
+                    assert(ms_elem_of(s0, f0[a]));
+                    let i = choose |i: int| 0 <= i < s0.len() && #[trigger] s0[i] == f0[a];
+                    assert(s[i].name@ != s[s.len() - 1].name@);
+                }
+            }
+        }
+    }
+}
+
+/// a list that names every known check once, filtered by a predicate `q` on the NAME: the result names exactly the known
+/// checks that satisfy `q`, each once
+pub proof fn lemma_ms_filter_known(all: Seq<&CweModule>, pred: spec_fn(&CweModule) -> bool, q: spec_fn(Seq<char>) -> bool)
+    requires
+        ms_all_known_once(all),
+        forall |m: &CweModule| #[trigger] pred(m) == q(m.name@),
+    ensures
+        ms_names_distinct(all.filter(pred)),
+        forall |p: Seq<char>| #[trigger] ms_has_name(all.filter(pred), p) <==> ms_is_known(p) && q(p),
+{
+    let f = all.filter(pred);
+    lemma_ms_filter_modules(all, pred);
+    assert forall |p: Seq<char>| #[trigger] ms_has_name(f, p) <==> ms_is_known(p) && q(p) by {
+        if ms_has_name(f, p) {
+            let k = choose |k: int| 0 <= k < f.len() && (#[trigger] f[k]).name@ == p;
+            assert(pred(f[k]) && ms_elem_of(all, f[k]));
+            let i = choose |i: int| 0 <= i < all.len() && #[trigger] all[i] == f[k];
+            assert(ms_has_name(all, p));
+        }
+        if ms_is_known(p) && q(p) {
+            assert(ms_has_name(all, p));
+            let i = choose |i: int| 0 <= i < all.len() && (#[trigger] all[i]).name@ == p;
+            assert(pred(all[i]));
+            assert(ms_elem_of(f, all[i]));
+            let k = choose |k: int| 0 <= k < f.len() && #[trigger] f[k] == all[i];
+            assert(f[k].name@ == p);
+        }
+    }
+}
+
+/// if every name carried by a list is known, every entry carries a known name
+pub proof fn lemma_ms_known_names_of(ms: Seq<&CweModule>)
+    requires
+        forall |p: Seq<char>| #[trigger] ms_has_name(ms, p) ==> ms_is_known(p),
+    ensures
+        forall |k: int| 0 <= k < ms.len() ==> ms_is_known((#[trigger] ms[k]).name@),
+{
+    assert forall |k: int| 0 <= k < ms.len() implies ms_is_known((#[trigger] ms[k]).name@) by {
+        assert(ms_has_name(ms, ms[k].name@));
+    }
+}
